@@ -254,6 +254,45 @@ proof! {
     }
 }
 
+// thorough: three fills from flat, the telescoped identity over closed records and the open position
+fn fills_from_flat(n: u8) {
+        let mut pm: PositionManager<InstrumentIndex> = PositionManager { current: None };
+        let mut cash_total = Decimal::ZERO;
+        let mut fees_total = Decimal::ZERO;
+        let mut net = Decimal::ZERO;
+        let mut closed_realised = Decimal::ZERO;
+        let mut closed_fees = Decimal::ZERO;
+        let mut closed_count = 0u8;
+        let mut k = 0u8;
+        while k < n {
+            let side = if any_bool() { Side::Buy } else { Side::Sell };
+            let f = fill(side, dec_pos(2), dec_pos(2), dec_u(1), time_at(k + 1), 0);
+            cash_total = cash_total + match side { Side::Sell => f.price * f.quantity - f.fees.fees, Side::Buy => -(f.price * f.quantity) - f.fees.fees };
+            fees_total = fees_total + f.fees.fees;
+            net = net + signed(side, f.quantity);
+            if let Some(c) = pm.update_from_trade(&f) {
+                closed_realised = closed_realised + c.pnl_realised;
+                closed_fees = closed_fees + c.fees_enter.fees + c.fees_exit.fees;
+                closed_count += 1;
+                core::mem::forget(c);
+            }
+            core::mem::forget(f);
+            k += 1;
+        }
+        let (open_realised, open_value, open_fees) = pm.current.as_ref().map_or((Decimal::ZERO, Decimal::ZERO, Decimal::ZERO), |p| (p.pnl_realised, net * p.price_entry_average, p.fees_enter.fees + p.fees_exit.fees));
+        assert!(deq(closed_realised + open_realised, cash_total + open_value), "C02: realised PnL over the history does not conserve the cash flows");
+        assert!(deq(closed_fees + open_fees, fees_total), "C02: entry + exit fees do not add up to the fees of the fills");
+        match &pm.current {
+            Some(p) => assert!(!net.is_zero() && deq(p.quantity_abs, net.abs()) && (p.side == Side::Buy) == (net > Decimal::ZERO), "C02: open position is not the net signed quantity"),
+            None => assert!(net.is_zero(), "C02: flat although the net quantity is not zero"),
+        }
+        kani::cover!(closed_count == n - 1, "every fill after the first closed a position (repeated flips)");
+        kani::cover!(closed_count == 0 && pm.current.is_some(), "no close");
+        core::mem::forget(pm);
+    }
+proof! { #[kani::unwind(26)] fn c02_t_three_fills_from_flat() { fills_from_flat(3) } }
+proof! { #[kani::unwind(26)] fn c02_t_four_fills_from_flat() { fills_from_flat(4) } }
+
 // a fill for another instrument must leave the position untouched
 proof! {
     #[kani::unwind(26)]
